@@ -143,6 +143,25 @@ def mon():
     return MON
 
 
+def guarded(fn):
+    """A crash of the monitor/driver on one case must not take the shard down (the remaining cases
+    would be lost) and must not be silent: it is recorded as a violation of its own class."""
+    import functools
+    import traceback
+
+    @functools.wraps(fn)
+    def wrapper(*a, **k):
+        try:
+            return fn(*a, **k)
+        except Exception as e:
+            MON.violation("monitor-error", "".join(traceback.format_exception(e))[-1500:],
+                          key="monitor-error:" + type(e).__name__)
+            MON.guard = 0
+            return None
+
+    return wrapper
+
+
 class shadow:
     """Context manager marking executions performed *by the monitor* (sibling runs of the real
     code).  Intrinsic contracts skip calls made under it."""
